@@ -336,3 +336,35 @@ let () =
       (match h_header h with Some hd -> obs "out wirehdr %s" (Ops_codec.show_header hd) | None -> obs "out wirehdr ?");
       List.iter (fun s -> obs "out %s" (show_fetch (FSeries s))) l;
       obs "out rest 0")
+
+(* the server's /view handler on a raw query, and the query the client builds (Model/Server.v) *)
+let () =
+  let unhexs h = if h = "-" then [] else Ops_text.str_of_hex h in
+  register "clirawview" (fun tk ->
+    let kv = kv_of tk in
+    let raw = unhexs (get kv "q" "-") in
+    let prefix = string_of_codes (unhexs (get kv "prefix" "-")) ^ "/" in
+    let lookup' (file : z list) =
+      let f = string_of_codes file in
+      if starts_with prefix f then lookup (String.sub f (String.length prefix) (String.length f - String.length prefix)) else None in
+    match handle_view lookup' raw with
+    | HBadRequest -> obs "clirawview bad"
+    | HServerError -> obs "clirawview err"
+    | HPanic -> obs "clirawview transport-error"
+    | HBody [] -> obs "clirawview notexist"
+    | HBody b ->
+      (match client_view b with
+       | WOk (hd, l) ->
+         obs "clirawview ok";
+         obs "out wirehdr %s" (Ops_codec.show_header hd);
+         List.iter (fun s -> obs "out %s" (show_fetch (FSeries s))) l;
+         obs "out rest 0"
+       | _ -> obs "clirawview undecodable-header"));
+  register "cliquerycap" (fun tk ->
+    let kv = kv_of tk in
+    let file = unhexs (get kv "src" "-") in
+    let now = z_of_dec (get kv "now" "0") in
+    let until = getz kv "until" 0 in
+    let until = if until = Z0 then now else until in
+    let q = view_query file (getz kv "archive" (-1)) (getz kv "from" 0) until now in
+    obs "cliquerycap path=/view q=%s" (if q = [] then "-" else Ops_text.hex_of_str q))
